@@ -288,7 +288,7 @@ Proof.
   - left. repeat split.
     unfold fstep in Ef.
     repeat match type of Ef with (if ?c then _ else _) = _ => destruct c end;
-      injection Ef as _ <-; auto.
+      try discriminate; injection Ef as _ <-; auto.
   - right. exists m. split; [reflexivity|]. destruct (ifd_exec e (dev s) m) as [d1 o1]. reflexivity.
 Qed.
 
@@ -397,13 +397,26 @@ Definition cmd_eqb (a b : ifd_cmd) : bool :=
 
 (* which register projection a command may change *)
 Lemma board_upd_frame c o i brd brd' : board_ok i brd -> board_upd c o brd brd' ->
-  (c <> IfA -> reg_att brd' = reg_att brd) /  (c <> IfB -> c <> IfS -> reg_bw brd' = reg_bw brd) /  (c <> IfI -> c <> IfS -> reg_in brd' = reg_in brd) /  (c = IfA -> reg_lo brd' = reg_lo brd).
+  (c <> IfA -> reg_att brd' = reg_att brd) /\
+  (c <> IfB -> c <> IfS -> reg_bw brd' = reg_bw brd) /\
+  (c <> IfI -> c <> IfS -> reg_in brd' = reg_in brd) /\
+  (c = IfA -> reg_lo brd' = reg_lo brd).
 Proof.
   intros (H0 & H1 & H2 & H3 & H4) Hu.
-  destruct Hu; unfold reg_att, reg_bw, reg_in, reg_lo; cbn;
-    repeat split; try congruence; auto; intros.
-  - apply (upd_in_facts (b_sr brd) p); auto.
-  - apply (upd_bw_facts (b_sr brd) p); auto.
+  destruct Hu; unfold reg_att, reg_bw, reg_in, reg_lo, with_sr, with_att, with_lo_en, with_reflo;
+    cbn [b_att b_sr b_ref b_lo b_f10 b_f11];
+    repeat split; intros; try congruence; try reflexivity.
+  all: try (apply (upd_bw_facts (b_sr brd) p); auto; fail).
+  all: try (apply (upd_in_facts (b_sr brd) p); auto; fail).
+Qed.
+
+Lemma cmd_in_dec c (cs : list ifd_cmd) : In c cs \/ ~ In c cs.
+Proof.
+  induction cs as [|x l IH]; [right; intros []|].
+  destruct IH as [IH|IH]; [left; right; exact IH|].
+  destruct (cmd_eqb x c) eqn:E.
+  - left. left. destruct x, c; try discriminate; reflexivity.
+  - right. intros [->|Hin]; [destruct c; discriminate|contradiction].
 Qed.
 
 (* generic preservation of a register projection over a quiet history *)
@@ -418,15 +431,6 @@ Section Quiet.
   Definition writes_any (j : Z) (s : ifd_state) (b : Z) : Prop :=
     exists c, In c cs /\ ifd_writes e c j s b.
 
-  Lemma cmd_in_dec c : In c cs \/ ~ In c cs.
-  Proof.
-    induction cs as [|x l IH]; [right; intros []|].
-    destruct IH as [IH|IH]; [left; right; exact IH|].
-    destruct (cmd_eqb x c) eqn:E.
-    - left. left. destruct x, c; try discriminate; reflexivity.
-    - right. intros [->|Hin]; [destruct c; discriminate|contradiction].
-  Qed.
-
   Lemma ifd_quiet_preserves j h : forall s brd,
     ifd_sinv s -> get_board (dev s) j = Some brd -> ifd_quiet e (writes_any j) s h ->
     exists brd2, get_board (dev (fst (ifd_run e s h))) j = Some brd2 /\ f brd2 = f brd.
@@ -439,7 +443,7 @@ Section Quiet.
       { destruct (ifd_step_board e s b j) as [Heq|(c & b0 & b1 & Hw & Hg0 & Hg1 & Hu)].
         - exists brd. rewrite Heq. auto.
         - exists b1. split; [exact Hg1|]. rewrite Hg in Hg0. injection Hg0 as <-.
-          destruct (cmd_in_dec c) as [Hin|Hnin].
+          destruct (cmd_in_dec c cs) as [Hin|Hnin].
           + exfalso. apply Hq1. exists c. auto.
           + eapply Hframe; eauto. apply (proj2 (proj2 Hs)). exact Hg. }
       destruct Hstep as (brd1 & Hg1 & Hf1).
@@ -593,7 +597,8 @@ Section Lines.
   (* C02: the status query of any board from any reachable idle state *)
   Theorem ifd_status_from_idle s i t :
     ifd_sinv s -> sidle s = true -> 0 <= i < 21 -> ifd_is_tail t = true ->
-    exists brd, get_board (dev s) i = Some brd /\ board_ok i brd /      ifd_run e s (ifd_line_status i ++ [t]) =
+    exists brd, get_board (dev s) i = Some brd /\ board_ok i brd /\
+      ifd_run e s (ifd_line_status i ++ [t]) =
       (Build_sstate [] (dev s),
        repeat OTrue (length (ifd_line_status i)) ++ [OReply (ifd_status_reply brd)]).
   Proof.
@@ -612,7 +617,8 @@ Section Lines.
     ifd_sinv s1 -> 0 <= j < 21 -> get_board (dev s1) j = Some brd1 ->
     ifd_quiet e (writes_any e cs j) s1 h -> sidle (fst (ifd_run e s1 h)) = true ->
     ifd_is_tail t' = true ->
-    exists brd2, f brd2 = f brd1 /\ board_ok j brd2 /      snd (ifd_run e (fst (ifd_run e s1 h)) (ifd_line_status j ++ [t'])) =
+    exists brd2, f brd2 = f brd1 /\ board_ok j brd2 /\
+      snd (ifd_run e (fst (ifd_run e s1 h)) (ifd_line_status j ++ [t'])) =
       repeat OTrue (length (ifd_line_status j)) ++ [OReply (ifd_status_reply brd2)].
   Proof.
     intros Hs1 Hj Hg Hq Hidle Ht'.
@@ -654,15 +660,17 @@ Section Lines.
     ifd_is_tail t = true ->
     let s1 := fst (ifd_run e s (ifd_line_att i ch v ++ [t])) in
     snd (ifd_run e s (ifd_line_att i ch v ++ [t])) =
-      repeat OTrue (length (ifd_line_att i ch v)) ++ [OReply ifd_ack] /    forall h t', ifd_quiet e (writes_any e [IfA] i) s1 h -> sidle (fst (ifd_run e s1 h)) = true ->
+      repeat OTrue (length (ifd_line_att i ch v)) ++ [OReply ifd_ack] /\
+    forall h t', ifd_quiet e (writes_any e [IfA] i) s1 h -> sidle (fst (ifd_run e s1 h)) = true ->
       ifd_is_tail t' = true ->
-      exists brd, nth_error (b_att brd) (Z.to_nat ch) = Some (2 * v) /\ board_ok i brd /        snd (ifd_run e (fst (ifd_run e s1 h)) (ifd_line_status i ++ [t'])) =
+      exists brd, nth_error (b_att brd) (Z.to_nat ch) = Some (2 * v) /\ board_ok i brd /\
+        snd (ifd_run e (fst (ifd_run e s1 h)) (ifd_line_status i ++ [t'])) =
         repeat OTrue (length (ifd_line_status i)) ++ [OReply (ifd_status_reply brd)].
   Proof.
     intros Hr Hidle Hi Hc Hv Ht. apply ifd_reachable_sinv in Hr.
     pose proof (ifd_run_sinv e (ifd_line_att i ch v ++ [t]) s Hr) as Hs1.
     destruct Hr as [Hb Hinv].
-    destruct (inv_get_board _ _ Hinv ltac:(lia)) as (brd & Hg & Hok).
+    destruct (inv_get_board (dev s) i Hinv ltac:(lia)) as (brd & Hg & Hok).
     rewrite (ifd_run_line e s _ t IfA [i; ch; v] Hidle (ifd_att_lines i ch v ltac:(lia) Hc Hv) Ht) in *.
     cbn [map] in *. rewrite (ifd_dispatch_int IfA _ i _ brd ltac:(lia) Hg) in *.
     cbn [ifd_handle ifd_set_att] in *.
@@ -689,15 +697,17 @@ Section Lines.
     ifd_reachable e s -> sidle s = true -> 1 <= i <= 2 -> 0 <= v < 4 -> ifd_is_tail t = true ->
     let s1 := fst (ifd_run e s (ifd_line_bw i v ++ [t])) in
     snd (ifd_run e s (ifd_line_bw i v ++ [t])) =
-      repeat OTrue (length (ifd_line_bw i v)) ++ [OReply ifd_ack] /    forall h t', ifd_quiet e (writes_any e [IfB; IfS] i) s1 h -> sidle (fst (ifd_run e s1 h)) = true ->
+      repeat OTrue (length (ifd_line_bw i v)) ++ [OReply ifd_ack] /\
+    forall h t', ifd_quiet e (writes_any e [IfB; IfS] i) s1 h -> sidle (fst (ifd_run e s1 h)) = true ->
       ifd_is_tail t' = true ->
-      exists brd, sr_bw (b_sr brd) = v /\ board_ok i brd /        snd (ifd_run e (fst (ifd_run e s1 h)) (ifd_line_status i ++ [t'])) =
+      exists brd, sr_bw (b_sr brd) = v /\ board_ok i brd /\
+        snd (ifd_run e (fst (ifd_run e s1 h)) (ifd_line_status i ++ [t'])) =
         repeat OTrue (length (ifd_line_status i)) ++ [OReply (ifd_status_reply brd)].
   Proof.
     intros Hr Hidle Hi Hv Ht. apply ifd_reachable_sinv in Hr.
     pose proof (ifd_run_sinv e (ifd_line_bw i v ++ [t]) s Hr) as Hs1.
     destruct Hr as [Hb Hinv].
-    destruct (inv_get_board _ _ Hinv ltac:(lia)) as (brd & Hg & Hok).
+    destruct (inv_get_board (dev s) i Hinv ltac:(lia)) as (brd & Hg & Hok).
     rewrite (ifd_run_line e s _ t IfB [i; v] Hidle (ifd_bw_lines i v ltac:(lia) Hv) Ht) in *.
     cbn [map] in *. rewrite (ifd_dispatch_int IfB _ i _ brd ltac:(lia) Hg) in *.
     cbn [ifd_handle ifd_set_bandwidth] in *.
@@ -722,9 +732,11 @@ Section Lines.
     ifd_reachable e s -> sidle s = true -> 0 <= v < 2 -> ifd_is_tail t = true ->
     let s1 := fst (ifd_run e s (ifd_line_in 2 v ++ [t])) in
     snd (ifd_run e s (ifd_line_in 2 v ++ [t])) =
-      repeat OTrue (length (ifd_line_in 2 v)) ++ [OReply ifd_ack] /    forall h t', ifd_quiet e (writes_any e [IfI; IfS] 2) s1 h -> sidle (fst (ifd_run e s1 h)) = true ->
+      repeat OTrue (length (ifd_line_in 2 v)) ++ [OReply ifd_ack] /\
+    forall h t', ifd_quiet e (writes_any e [IfI; IfS] 2) s1 h -> sidle (fst (ifd_run e s1 h)) = true ->
       ifd_is_tail t' = true ->
-      exists brd, sr_in (b_sr brd) = v + 1 /\ board_ok 2 brd /        snd (ifd_run e (fst (ifd_run e s1 h)) (ifd_line_status 2 ++ [t'])) =
+      exists brd, sr_in (b_sr brd) = v + 1 /\ board_ok 2 brd /\
+        snd (ifd_run e (fst (ifd_run e s1 h)) (ifd_line_status 2 ++ [t'])) =
         repeat OTrue (length (ifd_line_status 2)) ++ [OReply (ifd_status_reply brd)].
   Proof.
     intros Hr Hidle Hv Ht. apply ifd_reachable_sinv in Hr.
@@ -753,9 +765,11 @@ Section Lines.
     ifd_reachable e s -> sidle s = true -> 0 <= f < 10000 -> 0 <= en < 2 -> ifd_is_tail t = true ->
     let s1 := fst (ifd_run e s (ifd_line_lo 0 f en ++ [t])) in
     snd (ifd_run e s (ifd_line_lo 0 f en ++ [t])) =
-      repeat OTrue (length (ifd_line_lo 0 f en)) ++ [OReply ifd_ack] /    forall h t', ifd_quiet e (writes_any e [IfS; IfB; IfI] 0) s1 h ->
+      repeat OTrue (length (ifd_line_lo 0 f en)) ++ [OReply ifd_ack] /\
+    forall h t', ifd_quiet e (writes_any e [IfS; IfB; IfI] 0) s1 h ->
       sidle (fst (ifd_run e s1 h)) = true -> ifd_is_tail t' = true ->
-      exists brd, reg_lo brd = (NInt 10, NInt f, en, Z.lxor en 1, en) /\ board_ok 0 brd /        snd (ifd_run e (fst (ifd_run e s1 h)) (ifd_line_status 0 ++ [t'])) =
+      exists brd, reg_lo brd = (NInt 10, NInt f, en, Z.lxor en 1, en) /\ board_ok 0 brd /\
+        snd (ifd_run e (fst (ifd_run e s1 h)) (ifd_line_status 0 ++ [t'])) =
         repeat OTrue (length (ifd_line_status 0)) ++ [OReply (ifd_status_reply brd)].
   Proof.
     intros Hr Hidle Hf Hen Ht. apply ifd_reachable_sinv in Hr.
@@ -784,7 +798,11 @@ Section Lines.
   Theorem ifd_queries_answered s i t :
     ifd_reachable e s -> sidle s = true -> 0 <= i < 21 -> ifd_is_tail t = true ->
     exists r, snd (ifd_run e s (ifd_line_status i ++ [t])) =
-                repeat OTrue (length (ifd_line_status i)) ++ [OReply r] /              ifd_wf_reply r /              (exists brd, board_ok i brd /\ r = ifd_status_reply brd) /              dev (fst (ifd_run e s (ifd_line_status i ++ [t]))) = dev s /              sidle (fst (ifd_run e s (ifd_line_status i ++ [t]))) = true.
+                repeat OTrue (length (ifd_line_status i)) ++ [OReply r] /\
+              ifd_wf_reply r /\
+              (exists brd, board_ok i brd /\ r = ifd_status_reply brd) /\
+              dev (fst (ifd_run e s (ifd_line_status i ++ [t]))) = dev s /\
+              sidle (fst (ifd_run e s (ifd_line_status i ++ [t]))) = true.
   Proof.
     intros Hr Hidle Hi Ht. apply ifd_reachable_sinv in Hr.
     destruct (ifd_status_from_idle s i t Hr Hidle Hi Ht) as (brd & Hg & Hok & Hrun).
@@ -805,12 +823,14 @@ Definition line_S_float : list Z := [83; 32; 48; 32; 49; 48; 32; 53; 48; 32; 49;
 (* F28: `A 5 0 0.3` is acknowledged but entry 5 of board 5 then reads 0, i.e. 0.0 dB, not 0.3 dB *)
 Lemma ifd_att_offgrid_refuted :
   let (s1, outs) := ifd_run env_w ifd_init line_A503 in
-  last outs OFalse = OReply ifd_ack /  option_map (fun b => nth_error (b_att b) 0) (get_board (dev s1) 5) = Some (Some 0).
+  last outs OFalse = OReply ifd_ack /\
+  option_map (fun b => nth_error (b_att b) 0) (get_board (dev s1) 5) = Some (Some 0).
 Proof. vm_compute. auto. Qed.
 
 (* `S 0 10 50 1.` raises ValueError (no reply) yet the LO frequency of board 0 is now 50 *)
 Lemma ifd_refused_unchanged_refuted :
-  exists e s b, ifd_reachable e s /\ snd (ifd_step e s b) = OValueError /                dev (fst (ifd_step e s b)) <> dev s.
+  exists e s b, ifd_reachable e s /\ snd (ifd_step e s b) = OValueError /\
+                dev (fst (ifd_step e s b)) <> dev s.
 Proof.
   exists env_w, (fst (ifd_run env_w ifd_init (removelast line_S_float))), 10.
   split; [eexists; reflexivity|]. split; [vm_compute; reflexivity|].
@@ -820,5 +840,6 @@ Qed.
 
 Example ifd_reachable_example :
   let s := fst (ifd_run env_w ifd_init ([65; 32; 55; 32; 49; 32; 51; 10] ++ line_A503)) in
-  ifd_reachable env_w s /\ sidle s = true /  option_map b_att (get_board (dev s) 7) = Some [63; 6; 63; 63].
+  ifd_reachable env_w s /\ sidle s = true /\
+  option_map b_att (get_board (dev s) 7) = Some [63; 6; 63; 63].
 Proof. cbv zeta. split; [eexists; reflexivity|]. vm_compute. auto. Qed.
